@@ -131,6 +131,11 @@ def _report(ctx, desc, req, problems, base):
 def _dense(m, spec, desc, ctx, rng):
     nc = spec.n_channels
     scaling = float(spec.notes.get('template_scaling') or 1.0)
+    if spec.wm is None and spec.wmi_file is None and desc['seed'][-1] % 2 == 0 and isinstance(getattr(m, 'wm', None), np.ndarray) and m.wm.flags.writeable:
+        # a dataset that is not whitened: the caller scribbles into the (identity) matrix it was handed; unwhitening such a
+        # dataset still changes nothing
+        m.wm[...] = m.wm * 3 + 1
+        ctx.mon('identity_whitening_matrix_written_by_caller')
     if spec.raw is not None:
         # a waveform export on more channels than a template keeps must not change later template records
         r0 = call(m.get_template, 0)
